@@ -3,6 +3,7 @@ CONSTANTS SympyParenthesises = TRUE
  SafeNames = TRUE
  ClassifiesDiscrete = FALSE
  PrintsValueExpressions = TRUE
+          OneListPerVariable = TRUE
           Family = "cex"
 INIT Init
 NEXT Next
